@@ -57,7 +57,11 @@ KINDS = {
     "cshared": ("virtual_<const std::shared_ptr<B>&>", "const std::shared_ptr<{D}>&", "*a", "sp"),
     "vptr": ("virtual_ptr<B>", "virtual_ptr<{D}>", "*a", "virtual_ptr<B>(b)"),
     "vshared": ("virtual_shared_ptr<B>", "virtual_shared_ptr<{D}>", "*a", "virtual_shared_ptr<B>(sp)"),
+    # the same two passed by const reference (the library has traits for const virtual_ptr<..>&)
+    "cvptr": ("const virtual_ptr<B>&", "const virtual_ptr<{D}>&", "*a", "vpb"),
+    "cvshared": ("const virtual_shared_ptr<B>&", "const virtual_shared_ptr<{D}>&", "*a", "vspb"),
 }
+KIND_SETUP = {"cvptr": "virtual_ptr<B> vpb(b);", "cvshared": "virtual_shared_ptr<B> vspb(sp);"}
 
 CATS = {
     # cat: (parameter type, check inside the definition, caller setup, caller argument)
@@ -83,7 +87,7 @@ def scenario(idx, kind, shape, pos, cat):
     mparams.insert(pos, mparam)
     dparams.insert(pos, "%s a" % dparam)
     args.insert(pos, callexpr)
-    shared = kind in ("shared", "cshared", "vshared")
+    shared = kind in ("shared", "cshared", "vshared", "cvshared")
     o = ["namespace %s {" % ns]
     o.append("struct B { const void* self_B; int oid = 0; B() : self_B(this) {} virtual ~B() {} };")
     if decl:
@@ -97,7 +101,7 @@ def scenario(idx, kind, shape, pos, cat):
     o.append("    g_rep.self_ok = static_cast<const void*>(&d) == d.self_%s && static_cast<const void*>(static_cast<B*>(&d)) == d.self_B;" % D)
     o.append("    g_rep.oid_ok = d.oid == 1234 && x == 41;")
     if shared:
-        getsp = "a" if kind != "vshared" else "a.get()"
+        getsp = "a" if kind not in ("vshared", "cvshared") else "a.get()"
         o.append("    g_rep.owner_ok = same_owner(%s, g_owner);" % getsp)
     o.append("    g_rep.nv_ok = %s;" % nvcheck)
     o.append('    return "ret-%d";' % idx)
@@ -109,6 +113,8 @@ def scenario(idx, kind, shape, pos, cat):
         o.append("    std::shared_ptr<B> sp = sd; g_owner = sd;")
     else:
         o.append("    %s obj; obj.oid = 1234; B& b = obj;" % D)
+    if kind in KIND_SETUP:
+        o.append("    " + KIND_SETUP[kind])
     if setup:
         o.append("    " + setup)
     o.append("    Tracked::copies = 0; Tracked::moves = 0;")
